@@ -367,8 +367,11 @@ def reference_trace(text, pop, tick):
         out['compiled'] = job.program is not None
         out['listing'] = listing(job.program)
         mark = sim.evno
+        t0 = sim.now
         job.execute()
         out['trace'] = _trace_of(net, mark, pauses)
+        out['offsets'] = [round(w[1] - t0, 9)
+                          for w in world.wire_timed(net, mark, TYPES)]
         out['listing_after'] = listing(job.program)
 
     env.capture_logs()
@@ -415,6 +418,11 @@ def _exec_history(sc, chooser, violation, probes):
 
     class RecJob(ScriptJob):
         stop_ev = None
+        t0 = None
+
+        def execute(self):
+            self.t0 = core.current().now
+            super().execute()
 
         def request_stop(self):
             self.stop_ev = core.current().next_event()
@@ -471,11 +479,15 @@ def _exec_history(sc, chooser, violation, probes):
                     break
                 sim.sleep(tick)
             trace = _trace_of(net, mark, pauses)
+            offsets = [round(w[1] - (job.t0 or 0.0), 9)
+                       for w in world.wire_timed(net, mark, TYPES)]
             out = sys.stdout.getvalue()[buf_start:]
             stopped = job.stop_ev is not None
             st['runs'].append({'step': step, 'j': j,
                                'text': current_text.get(j), 'trace': trace,
                                'stdout': out, 'stopped': stopped,
+                               'offsets': offsets,
+                               'held_up': len(sim.stall_log),
                                'after': last.get(j),
                                'listing_after': listing(job.program)})
             last[j] = ('stopped' if stopped else 'ran', current_text.get(j))
@@ -548,6 +560,20 @@ def _judge_exec(sc, st, cap, violation, probes):
                           _first_diff(run['trace'], ref['trace']), prev,
                           text[:300]))
             return
+        # the delays themselves: every command leaves at the same offset from
+        # the start of the run as in the fresh run, give or take the tick
+        # phase (no stalls are injected in these histories)
+        if not run.get('held_up') and len(run['offsets']) == \
+                len(ref['offsets']):
+            for i, (a, b) in enumerate(zip(run['offsets'], ref['offsets'])):
+                if a < b - (tick + 0.02) or a > b + 2 * tick + 0.05:
+                    violation('exec/timing-differs',
+                              '{}: command #{} left {:.4f} s after the run '
+                              'started, in a fresh job it leaves after {:.4f} '
+                              's (tick {}); previous use of this job: {}; '
+                              'text: {!r}'.format(where, i + 1, a, b, tick,
+                                                  prev, text[:300]))
+                    return
         if run['stdout'] != ref['stdout']:
             violation('exec/output-differs',
                       '{}: printed {!r}, a fresh job prints {!r}; previous '
